@@ -2,7 +2,86 @@
 From Coq Require Import NArith List Bool Lia Arith.
 Import ListNotations.
 Require Import SR.Base.Res SR.Model.RefFormat SR.Spec.RefFormat.
+Require Import SR.Gen.RefFormatParams.
 Open Scope N_scope.
+
+(* ================================================================ what the source says now (T1)
+
+   Model/RefFormat.v interprets Gen/RefFormatParams.v, which harness/t1_text.py regenerates from
+   src/stingray/cobol_parser.py on every run.  The lemmas of this section state, in closed form, what the
+   model is for the parameter values the proofs below were written for; each is proved by computation,
+   so it stops compiling when the source changes the stage list (which filters, in which order, on which
+   expression; the slice line[7:72], the indicator column line[6], the length test, the comment
+   indicators, the directive words, where REPLACING sits and which pairs it applies), the join loop
+   (continuation indicator, how the texts are joined, the COPY test) or the sentence pattern (number of
+   level digits, lazy clause text, terminator, DOTALL).  Everything after this section uses only these
+   lemmas, never the parameters. *)
+
+Definition f_non_empty (l : line) : bool := nonempty (rstrip l).
+Definition is_directive_word (w : line) : bool := existsb (leqb w) [w_EJECT; w_SKIP1; w_SKIP2; w_SKIP3].
+Definition f_non_directive (l : line) : bool := negb (is_directive_word (strip l)).
+Definition f_long (l : line) : bool := (7 <=? length l)%nat.
+Definition indicator (l : line) : N := nth 6 l 0.
+Definition area (l : line) : line := firstn 65 (skipn 7 l).       (* line[7:72] *)
+Definition to_card (l : line) : card := (indicator l, area l).
+Definition f_non_comment (c : card) : bool := negb (existsb (N.eqb (fst c)) [42; 68]).
+
+(* the stages in front of the join loop, REPLACING excluded: four filters and the column split, in this order *)
+Lemma cards_eq : forall src,
+  cards src = filter f_non_comment (map to_card (filter f_long (filter f_non_directive (filter f_non_empty src)))).
+Proof. reflexivity. Qed.
+
+(* REPLACING is the last stage (slice, then replace), applied to the text of every pair ... *)
+Lemma rf_eq : forall src repl, reference_format src repl = join_all (replace_cards repl (cards src)).
+Proof. reflexivity. Qed.
+
+(* ... and goes through all pairs in list order *)
+Lemma replace_all_eq : forall repl s,
+  replace_all repl s = fold_left (fun acc p => replace (fst p) (snd p) acc) repl s.
+Proof. reflexivity. Qed.
+
+Lemma directives_eq : directives = [w_EJECT; w_SKIP1; w_SKIP2; w_SKIP3].
+Proof. reflexivity. Qed.
+
+(* the join loop: indicator minus continues, plain concatenation, COPY test on the stripped pending line *)
+Lemma join_eq : forall cur i t r,
+  join cur ((i, t) :: r) =
+  if i =? 45 then join (cur ++ t) r
+  else if starts_copy cur then Err ValueError
+       else match join t r with Ok out => Ok (cur :: out) | Err e => Err e end.
+Proof. reflexivity. Qed.
+
+(* the sentence pattern: lazy clause text, any character (DOTALL), period + one white-space character *)
+Lemma find_term_eq : forall c t,
+  find_term (c :: t) =
+  if (c =? 46) && (match t with w :: _ => is_ws w | [] => false end) then Some ([], tl t)
+  else match find_term t with
+       | Some (a, r) => Some (c :: a, r)
+       | None => None
+       end.
+Proof. reflexivity. Qed.
+
+(* ... after optional white space, exactly two digits and optional white space *)
+Lemma try_match_eq : forall s,
+  try_match s =
+  match lstrip s with
+  | d1 :: d2 :: r =>
+      if is_digit d1 && is_digit d2 then
+        match find_term (lstrip r) with
+        | Some (cl, rest) => Some ([d1; d2], cl, rest)
+        | None => None
+        end
+      else None
+  | _ => None
+  end.
+Proof.
+  intro s. unfold try_match. change sent_level_digits with 2%nat. unfold find_body. change sent_lazy with true.
+  destruct (lstrip s) as [|d1 [|d2 r]]; cbn [take_digits].
+  - reflexivity.
+  - destruct (is_digit d1); reflexivity.
+  - destruct (is_digit d1); [|reflexivity]. destruct (is_digit d2); cbn [andb]; [|reflexivity].
+    destruct (find_term (lstrip r)) as [[cl rest]|]; reflexivity.
+Qed.
 
 (* ================================================================ string helpers *)
 
@@ -64,7 +143,7 @@ Proof.
 Qed.
 
 Lemma directive_word_eq : forall w, is_directive_word w = directive_word w.
-Proof. intro w. unfold is_directive_word, directive_word, directives. simpl. rewrite orb_false_r. rewrite !orb_assoc. reflexivity. Qed.
+Proof. intro w. unfold is_directive_word, directive_word. simpl. rewrite orb_false_r. rewrite !orb_assoc. reflexivity. Qed.
 
 (* ================================================================ the four filters as one partial map *)
 
@@ -79,7 +158,7 @@ Fixpoint fmap (src : list line) : list card :=
 
 Lemma cards_fmap : forall src, cards src = fmap src.
 Proof.
-  unfold cards. induction src as [|l r IH]; [reflexivity|].
+  intro src. rewrite cards_eq. induction src as [|l r IH]; [reflexivity|].
   simpl. unfold pre.
   destruct (f_non_empty l); simpl; [|exact IH].
   destruct (f_non_directive l); simpl; [|exact IH].
@@ -109,7 +188,7 @@ Proof.
   destruct (f_long l) eqn:L; simpl.
   2:{ destruct (directive_word (strip l)); reflexivity. }
   destruct (directive_word (strip l)); simpl; [reflexivity|].
-  rewrite (col7_indicator l L). unfold f_non_comment, to_card. simpl.
+  rewrite (col7_indicator l L). unfold f_non_comment, to_card. cbn [existsb fst]. rewrite orb_false_r.
   destruct ((indicator l =? 42) || (indicator l =? 68)); reflexivity.
 Qed.
 
@@ -159,7 +238,7 @@ Qed.
 Lemma seq_area : forall src src' repl, Forall2 seq_variant src src' ->
   reference_format src repl = reference_format src' repl.
 Proof.
-  intros src src' repl H. unfold reference_format. rewrite !cards_fmap.
+  intros src src' repl H. rewrite !rf_eq. rewrite !cards_fmap.
   rewrite (seq_area_fmap src src' H). reflexivity.
 Qed.
 
@@ -175,7 +254,7 @@ Qed.
 Lemma comments : forall s s' repl, inserted plain_noise s s' ->
   reference_format s' repl = reference_format s repl.
 Proof.
-  intros s s' repl H. unfold reference_format. rewrite !cards_fmap.
+  intros s s' repl H. rewrite !rf_eq. rewrite !cards_fmap.
   rewrite (inserted_fmap s s' H). reflexivity.
 Qed.
 
@@ -202,7 +281,7 @@ Lemma directive_line_noise : forall a w b, forallb is_ws a = true -> forallb is_
 Proof.
   intros a w b Ha Hb Hw. unfold plain_noise. rewrite (strip_padded a w b Ha Hb).
   assert (D : directive_word (strip w) = true).
-  { unfold directives in Hw. simpl in Hw.
+  { rewrite directives_eq in Hw. simpl in Hw.
     destruct Hw as [H|[H|[H|[H|H]]]]; try contradiction; subst w; vm_compute; reflexivity. }
   rewrite D. rewrite !orb_true_r. reflexivity.
 Qed.
@@ -229,10 +308,7 @@ Lemma join_groups : forall r i cur, join cur r = checked (groups ((i, cur) :: r)
 Proof.
   induction r as [|[i' t] r' IH]; intros i cur; unfold card in *.
   - reflexivity.
-  - change (join cur ((i', t) :: r')) with
-      (if i' =? 45 then join (cur ++ t) r'
-       else if starts_copy cur then Err ValueError
-            else match join t r' with Ok out => Ok (cur :: out) | Err e => Err e end).
+  - rewrite join_eq.
     destruct (i' =? 45) eqn:E.
     + rewrite (IH i (cur ++ t)). f_equal.
       simpl. rewrite E.
@@ -263,7 +339,7 @@ Qed.
 
 Lemma continuation : forall src repl,
   reference_format src repl = checked (groups (replace_cards repl (cards src))).
-Proof. intros. unfold reference_format. apply join_all_groups. Qed.
+Proof. intros. rewrite rf_eq. apply join_all_groups. Qed.
 
 (* ================================================================ C12_replacing *)
 
@@ -315,9 +391,9 @@ Lemma subst_all_replace_all : forall repl s, repl_ok repl = true -> subst_all re
 Proof.
   induction repl as [|[old new] r IH]; intros s H; [reflexivity|].
   unfold repl_ok in H. simpl in H. apply andb_true_iff in H. destruct H as [H1 H2].
-  unfold subst_all, replace_all. cbn [fold_left fst snd].
+  unfold subst_all. rewrite replace_all_eq. cbn [fold_left fst snd].
   rewrite subst_replace by (destruct old; [discriminate|discriminate]).
-  apply (IH (replace old new s) H2).
+  rewrite <- replace_all_eq. apply (IH (replace old new s) H2).
 Qed.
 
 Lemma replacing : forall src repl, repl_ok repl = true ->
@@ -325,7 +401,7 @@ Lemma replacing : forall src repl, repl_ok repl = true ->
   map snd (replace_cards repl (cards src)) = map (subst_all repl) (map snd (cards src)) /\
   reference_format src repl = join_all (map (fun c => (fst c, subst_all repl (snd c))) (cards src)).
 Proof.
-  intros src repl H. unfold reference_format, replace_cards. rewrite !map_map. simpl.
+  intros src repl H. rewrite rf_eq. unfold replace_cards. rewrite !map_map. simpl.
   split; [reflexivity|]. split.
   - apply map_ext. intro c. symmetry. apply subst_all_replace_all. exact H.
   - f_equal. apply map_ext. intro c. rewrite subst_all_replace_all by exact H. reflexivity.
@@ -399,10 +475,10 @@ Lemma find_term_body : forall body w rest, has_term body = false -> is_ws w = tr
   find_term (body ++ 46 :: w :: rest) = Some (body, rest).
 Proof.
   induction body as [|c b IH]; intros w rest Hb Hw.
-  - simpl. rewrite Hw. reflexivity.
+  - cbn [app]. rewrite find_term_eq. rewrite Hw. reflexivity.
   - simpl in Hb. apply orb_false_iff in Hb. destruct Hb as [H1 H2].
     change ((c :: b) ++ 46 :: w :: rest) with (c :: (b ++ 46 :: w :: rest)).
-    cbn [find_term].
+    rewrite find_term_eq.
     assert (E : (c =? 46) && match b ++ 46 :: w :: rest with w' :: _ => is_ws w' | [] => false end = false).
     { destruct b as [|c' b']; simpl.
       - change (is_ws 46) with false. apply andb_false_r.
@@ -420,7 +496,7 @@ Proof.
   repeat (apply andb_true_iff in H; destruct H as [H ?]).
   rename H into Hlead, H0 into Hw, H1 into Hterm, H2 into Hhead, H3 into Hgap, H4 into Hd2, H5 into Hd1.
   apply negb_true_iff in Hterm.
-  unfold try_match, print_entry. rewrite <- app_assoc. rewrite lstrip_ws_app by exact Hlead.
+  rewrite try_match_eq. unfold print_entry. rewrite <- app_assoc. rewrite lstrip_ws_app by exact Hlead.
   simpl app. rewrite lstrip_head by (apply digit_not_ws; exact Hd1).
   rewrite Hd1, Hd2. simpl andb. cbv iota.
   rewrite <- !app_assoc. rewrite lstrip_ws_app by exact Hgap.
@@ -463,7 +539,7 @@ Lemma scan_ws : forall tail, forallb is_ws tail = true -> scan 0 tail = [].
 Proof.
   induction tail as [|c t IH]; intro H; [reflexivity|].
   simpl in H. apply andb_true_iff in H. destruct H as [H1 H2].
-  cbn [scan]. unfold try_match.
+  cbn [scan]. rewrite try_match_eq.
   assert (E : lstrip (c :: t) = []) by (apply lstrip_all_ws; simpl; rewrite H1, H2; reflexivity).
   rewrite E. apply IH. exact H2.
 Qed.
